@@ -34,6 +34,7 @@ type Op struct {
 	Slow   bool     `json:"slow,omitempty"` // join with a 4 KiB receive buffer (a reader that will lag)
 	Fill   int      `json:"fill,omitempty"` // send: bytes of filler derived from (id, sender, seq) after the header
 	NB     bool     `json:"nb,omitempty"`   // send: no waiting afterwards (burst)
+	Size   int      `json:"size,omitempty"` // send: total payload size in bytes (header + filler), 0 = just the header
 }
 
 type Seen struct {
@@ -53,6 +54,9 @@ type Case struct {
 }
 
 func (o Op) payload() []byte {
+	if o.Size > 0 {
+		return hubkit.PayloadSized(o.ID, o.N, o.Seq, o.TT, o.Size)
+	}
 	if o.Fill > 0 {
 		return hubkit.PayloadFill(o.ID, o.N, o.Seq, o.TT, o.Fill)
 	}
@@ -79,6 +83,9 @@ func (o Op) coq() string {
 	size := len(hubkit.Payload(o.ID, o.N, o.Seq, o.TT))
 	if o.Fill > 0 {
 		size = len(hubkit.PayloadFill(o.ID, o.N, o.Seq, o.TT, 0)) + o.Fill
+	}
+	if o.Size > 0 {
+		size = len(o.payload())
 	}
 	return lib.App("OSend", lib.N(o.N), lib.N(uint64(o.MT)), lib.N(uint64(size)), "["+lib.N(o.ID)+"]")
 }
@@ -235,7 +242,11 @@ func genHistory(r *lib.Rng) []Op {
 		default:
 			seq++
 			nextID++
-			ops = append(ops, Op{K: "send", N: s.name, TT: s.tt, MT: 1 + r.Intn(2), ID: nextID, Seq: seq})
+			o := Op{K: "send", N: s.name, TT: s.tt, MT: 1 + r.Intn(2), ID: nextID, Seq: seq}
+			if r.Chance(1, 8) { // sizes around the length-encoding and write-buffer boundaries, and a large one
+				o.Size = hubkit.Thresholds[2+r.Intn(len(hubkit.Thresholds)-2)]
+			}
+			ops = append(ops, o)
 		}
 	}
 	return ops
